@@ -3,16 +3,28 @@
 Require Import Base.
 
 Inductive stmt :=
-| SRoute (method : str) (path : str) (hs : list nat)
-| SGet (path : str) (hs : list nat)                       (* honours AutoHead *)
-| SRoutes (path : str) (methods : str) (extra : list str) (hs : list nat)
-| SAny (path : str) (hs : list nat)
+| SRoute (method : str) (path : str) (hs : list nat) (hdr : bool)
+| SGet (path : str) (hs : list nat) (hdr : bool)          (* honours AutoHead *)
+| SRoutes (path : str) (methods : str) (extra : list str) (hs : list nat) (hdr : bool)
+| SAny (path : str) (hs : list nat) (hdr : bool)
 | SGroup (path : str) (hs : list nat) (body : list stmt)
 | SCombo (path : str) (common : list nat) (uses : list (str * list nat))
 | SAutoHead (b : bool).
 
-(* a primitive registration: router.Route(method, fullPath, handlers) *)
-Record freg := mkfreg { fr_method : str; fr_path : str; fr_hs : list nat }.
+(* hdr: the statement is followed by .Headers(...) on the *Route it returns (Get: the GET route, not its
+   HEAD twin; Routes: the route of the LAST method only; Any: the one route holding every method) *)
+
+(* a primitive registration: router.Route(method, fullPath, handlers), and whether .Headers(...) is then
+   called on the *Route it returned *)
+Record freg := mkfreg { fr_method : str; fr_path : str; fr_hs : list nat; fr_hdr : bool }.
+
+(* Routes returns the *Route of the last method it registered *)
+Fixpoint mark_last (hdr : bool) (l : list freg) : list freg :=
+  match l with
+  | [] => []
+  | [r] => [mkfreg (fr_method r) (fr_path r) (fr_hs r) hdr]
+  | r :: l' => r :: mark_last hdr l'
+  end.
 
 Definition m_get : str := [71;69;84]%N.
 Definition m_head : str := [72;69;65;68]%N.
@@ -33,11 +45,12 @@ Definition methods_of (methods : str) (extra : list str) : list str :=
 (* ---------------- the code: an explicit stack of living groups ---------------- *)
 Record gst := mkg { autohead : bool; groups : list (str * list nat) (* outermost first *) }.
 
-Definition route_in (g : gst) (m path : str) (hs : list nat) : freg :=
-  mkfreg m (concat (map fst (groups g)) ++ path) (concat (map snd (groups g)) ++ hs).
+Definition route_in (g : gst) (m path : str) (hs : list nat) (hdr : bool) : freg :=
+  mkfreg m (concat (map fst (groups g)) ++ path) (concat (map snd (groups g)) ++ hs) hdr.
 
-Definition get_in (g : gst) (path : str) (hs : list nat) : list freg :=
-  route_in g m_get path hs :: (if autohead g then [route_in g m_head path hs] else []).
+(* Get returns the GET route; the HEAD twin is registered by a separate r.Head call whose result is dropped *)
+Definition get_in (g : gst) (path : str) (hs : list nat) (hdr : bool) : list freg :=
+  route_in g m_get path hs hdr :: (if autohead g then [route_in g m_head path hs false] else []).
 
 (* ComboRoute.route: the same method twice is refused *)
 Fixpoint combo_in (g : gst) (path : str) (common : list nat) (added : list str) (uses : list (str * list nat))
@@ -48,7 +61,7 @@ Fixpoint combo_in (g : gst) (path : str) (common : list nat) (added : list str) 
       if existsb (str_eqb m) added then None
       else match combo_in g path common (m :: added) rest with
            | None => None
-           | Some l => Some ((if str_eqb m m_get then get_in g path (common ++ hs) else [route_in g m path (common ++ hs)]) ++ l)
+           | Some l => Some ((if str_eqb m m_get then get_in g path (common ++ hs) false else [route_in g m path (common ++ hs) false]) ++ l)
            end
   end.
 
@@ -71,14 +84,14 @@ Fixpoint exec_stmt (fuel : nat) (g : gst) (s : stmt) {struct fuel} : option (gst
   | O => None
   | S f =>
     match s with
-    | SRoute m path hs => Some (g, [route_in g m path hs])
-    | SGet path hs => Some (g, get_in g path hs)
-    | SRoutes path methods extra hs =>
+    | SRoute m path hs hdr => Some (g, [route_in g m path hs hdr])
+    | SGet path hs hdr => Some (g, get_in g path hs hdr)
+    | SRoutes path methods extra hs hdr =>
         match methods with
         | [] => None                                       (* empty methods *)
-        | _ => Some (g, map (fun m => route_in g m path hs) (methods_of methods extra))
+        | _ => Some (g, mark_last hdr (map (fun m => route_in g m path hs false) (methods_of methods extra)))
         end
-    | SAny path hs => Some (g, [route_in g m_star path hs])
+    | SAny path hs hdr => Some (g, [route_in g m_star path hs hdr])
     | SGroup path hs body =>
         (* r.groups = append(r.groups, group{...}); fn(); r.groups = r.groups[:len-1] *)
         let g1 := mkg (autohead g) (groups g ++ [(path, hs)]) in
@@ -106,10 +119,10 @@ Definition exec (p : list stmt) : option (list freg) :=
   match exec_list (S (depth_list p)) (mkg false []) p with Some (_, r) => Some r | None => None end.
 
 (* ---------------- the specification: flat expansion with the lexical prefix ---------------- *)
-Definition reg_at (pp : str) (ph : list nat) (m path : str) (hs : list nat) : freg := mkfreg m (pp ++ path) (ph ++ hs).
+Definition reg_at (pp : str) (ph : list nat) (m path : str) (hs : list nat) (hdr : bool) : freg := mkfreg m (pp ++ path) (ph ++ hs) hdr.
 
-Definition get_at (ah : bool) (pp : str) (ph : list nat) (path : str) (hs : list nat) : list freg :=
-  reg_at pp ph m_get path hs :: (if ah then [reg_at pp ph m_head path hs] else []).
+Definition get_at (ah : bool) (pp : str) (ph : list nat) (path : str) (hs : list nat) (hdr : bool) : list freg :=
+  reg_at pp ph m_get path hs hdr :: (if ah then [reg_at pp ph m_head path hs false] else []).
 
 Fixpoint combo_at (ah : bool) (pp : str) (ph : list nat) (path : str) (common : list nat) (added : list str)
   (uses : list (str * list nat)) : option (list freg) :=
@@ -119,21 +132,21 @@ Fixpoint combo_at (ah : bool) (pp : str) (ph : list nat) (path : str) (common : 
       if existsb (str_eqb m) added then None
       else match combo_at ah pp ph path common (m :: added) rest with
            | None => None
-           | Some l => Some ((if str_eqb m m_get then get_at ah pp ph path (common ++ hs) else [reg_at pp ph m path (common ++ hs)]) ++ l)
+           | Some l => Some ((if str_eqb m m_get then get_at ah pp ph path (common ++ hs) false else [reg_at pp ph m path (common ++ hs) false]) ++ l)
            end
   end.
 
 (* AutoHead is the only thing that flows from one statement to the next *)
 Fixpoint flatten_stmt (ah : bool) (pp : str) (ph : list nat) (s : stmt) {struct s} : option (bool * list freg) :=
   match s with
-  | SRoute m path hs => Some (ah, [reg_at pp ph m path hs])
-  | SGet path hs => Some (ah, get_at ah pp ph path hs)
-  | SRoutes path methods extra hs =>
+  | SRoute m path hs hdr => Some (ah, [reg_at pp ph m path hs hdr])
+  | SGet path hs hdr => Some (ah, get_at ah pp ph path hs hdr)
+  | SRoutes path methods extra hs hdr =>
       match methods with
       | [] => None
-      | _ => Some (ah, map (fun m => reg_at pp ph m path hs) (methods_of methods extra))
+      | _ => Some (ah, mark_last hdr (map (fun m => reg_at pp ph m path hs false) (methods_of methods extra)))
       end
-  | SAny path hs => Some (ah, [reg_at pp ph m_star path hs])
+  | SAny path hs hdr => Some (ah, [reg_at pp ph m_star path hs hdr])
   | SGroup path hs body =>
       seq_list (fun ah s => flatten_stmt ah (pp ++ path) (ph ++ hs) s) ah body
   | SCombo path common uses =>
@@ -146,3 +159,14 @@ Definition flatten_list (ah : bool) (pp : str) (ph : list nat) (l : list stmt) :
 
 Definition flatten (p : list stmt) : option (list freg) :=
   match flatten_list false [] [] p with Some (_, r) => Some r | None => None end.
+
+(* ---------------- handlers at registration: validated and wrapped, all of them ---------------- *)
+(* router.Route runs validateAndWrapHandlers over the CONCATENATED list (group handlers included).
+   Handler id 0 stands for a value that is not a function (registration panics); with a HandlerWrapper
+   installed every handler that has no fast invoker is wrapped exactly once: the wrapper's mark 0 runs
+   before it. *)
+Definition callable (r : freg) : bool := negb (existsb (Nat.eqb 0) (fr_hs r)).
+Definition run_trace (wrap : bool) (r : freg) : list nat :=
+  if wrap then flat_map (fun h => [0; h]) (fr_hs r) else fr_hs r.
+Definition checked (regs : option (list freg)) : option (list freg) :=
+  match regs with Some l => if forallb callable l then Some l else None | None => None end.
